@@ -253,12 +253,13 @@ class NDNApp:
                 del self._int_tree[node_name]
             raise
         # The lifetime starts when the Interest is sent, not when the returned coroutine is first awaited
-        deadline = timestamp() + (100 if interest_param.lifetime is None else interest_param.lifetime)
-        return self._wait_for_data(future, deadline, node_name, node, validator, need_raw_packet)
+        # (measured on the event loop's clock: a lifetime is a duration, the wall clock may be stepped meanwhile)
+        expire_at = aio.get_running_loop().time() + (100 if interest_param.lifetime is None else interest_param.lifetime) / 1000.0
+        return self._wait_for_data(future, expire_at, node_name, node, validator, need_raw_packet)
 
-    async def _wait_for_data(self, future: aio.Future, deadline: int, node_name: FormalName,
+    async def _wait_for_data(self, future: aio.Future, expire_at: float, node_name: FormalName,
                              node: InterestTreeNode, validator: Validator, need_raw_packet: bool):
-        lifetime = max(0, deadline - timestamp())
+        lifetime = max(0.0, expire_at - aio.get_running_loop().time()) * 1000.0
         try:
             data_name, meta_info, content, sig, raw_packet = await aio.wait_for(future, timeout=lifetime/1000.0)
         except TimeoutError:
